@@ -200,6 +200,10 @@ pub struct CaPlan {
 	/// URLs are compared as the CA issued them, not in a normalised form
 	#[serde(default)]
 	pub host_alias: String,
+	/// a second order for the same public key and names gets the very same leaf certificate again (with the intermediates of the
+	/// new order): what a CA with a certificate cache does when a key pair is reused
+	#[serde(default)]
+	pub repeat_leaf: bool,
 }
 
 fn default_true() -> bool {
@@ -233,6 +237,7 @@ impl Default for CaPlan {
 			order_echo: String::new(),
 			pem_eol: String::new(),
 			host_alias: String::new(),
+			repeat_leaf: false,
 		}
 	}
 }
